@@ -33,7 +33,7 @@ func c01Corpus(env run.Env) corpus {
 	if env.Thorough {
 		return newCorpus("C01", gen.Domain{}, 240, 12000000)
 	}
-	return newCorpus("C01", gen.Domain{}, 6, 20000)
+	return newCorpus("C01", gen.Domain{}, 24, 20000)
 }
 
 func (c01) Phases(env run.Env) []run.Phase {
